@@ -8,6 +8,7 @@ import (
 	"os"
 	"path/filepath"
 	"runtime"
+	"strings"
 	"sync/atomic"
 	"time"
 
@@ -70,6 +71,36 @@ type exec struct {
 
 func (x *exec) fail(sig, format string, a ...any) {
 	x.env.Fail(prop, core.SigSafe(sig), format, a...)
+}
+
+// failDump reports a problem seen while dumping the database.
+func (x *exec) failDump(prob string) {
+	if strings.HasPrefix(prob, "order:") {
+		x.fail("foreach-order", "%s", prob)
+		return
+	}
+	x.fail("dump-inconsistent", "%s", prob)
+}
+
+// readTxIsReadOnly verifies, without blocking, that a transaction from
+// BeginReadTx cannot write (it must refuse to create a top-level bucket).
+// It runs before the harness holds a read transaction across a writer in the
+// same goroutine: if "read" transactions were writers, that would deadlock on
+// bbolt's writer lock instead of failing.
+func (x *exec) readTxIsReadOnly() bool {
+	tx, err := x.db.Inner.BeginReadTx()
+	if err != nil {
+		x.fail("unusable:BeginReadTx", "BeginReadTx: %v", err)
+		return false
+	}
+	defer tx.Rollback()
+	if rw, ok := tx.(walletdb.ReadWriteTx); ok {
+		if _, err := rw.CreateTopLevelBucket([]byte("ro-probe")); err == nil {
+			x.fail("readonly-mutation-accepted:op=CreateTopLevelBucket:tx=BeginReadTx", "a transaction from BeginReadTx created a top-level bucket")
+			return false
+		}
+	}
+	return true
 }
 
 func (x *exec) open(create bool) bool {
@@ -185,7 +216,7 @@ func (x *exec) verifyCommitted(sig string) bool {
 		return false
 	}
 	if prob != "" {
-		x.fail("foreach-order", "%s", prob)
+		x.failDump(prob)
 		return false
 	}
 	if d := dbmodel.Diff(x.committed, got); d != "" {
@@ -301,6 +332,9 @@ func (x *exec) group(ops []core.Op, base int) {
 	var oldRead walletdb.ReadTx
 	pre := x.committed
 	if flags&flagReadAcross != 0 && x.pregrown > 0 {
+		if !x.readTxIsReadOnly() {
+			return
+		}
 		if roomToWrite(x.file) {
 			r, err := x.db.BeginReadTx()
 			if err != nil {
@@ -484,7 +518,7 @@ func (x *exec) group(ops []core.Op, base int) {
 	if oldRead != nil {
 		got, prob := dump(oldRead)
 		if prob != "" {
-			x.fail("foreach-order", "%s", prob)
+			x.failDump(prob)
 			return
 		}
 		if d := dbmodel.Diff(pre, got); d != "" {
@@ -578,7 +612,7 @@ func (x *exec) readGroup(ops []core.Op, base int, api, out int64) {
 		}
 		got, prob := dump(tx)
 		if prob != "" {
-			x.fail("foreach-order", "%s", prob)
+			x.failDump(prob)
 		} else if d := dbmodel.Diff(x.committed, got); d != "" {
 			x.fail("read-committed:dump", "read transaction sees something else than the committed state: %s", d)
 		}
@@ -667,7 +701,7 @@ func (x *exec) body(tx walletdb.ReadWriteTx, work *dbmodel.Bucket, ops []core.Op
 	// reads inside the transaction see all of its own writes
 	got, prob := dump(tx)
 	if prob != "" {
-		x.fail("foreach-order", "%s", prob)
+		x.failDump(prob)
 		return errStop
 	}
 	if d := dbmodel.Diff(work, got); d != "" {
